@@ -123,8 +123,11 @@ def _array_with(rng, shape, n, vals=(-2.0, -1.0, 1.0, 2.0, 0.5, 3.0)):
 def _orders(rng, n, how):
     if n <= 1:
         return [list(range(n))]
-    if how == "all":
+    if how == "all" and n <= 4:
         return [list(p) for p in itertools.permutations(range(n))]
+    if how == "all":
+        # operands that grew past 4 nonzeros (forced ties add positions): identity, reversal and 22 drawn orders instead of n!
+        return [list(range(n)), list(range(n - 1, -1, -1))] + [[int(x) for x in rng.permutation(n)] for _ in range(22)]
     out = [list(range(n)), list(range(n - 1, -1, -1))]
     for _ in range(3):
         out.append([int(x) for x in rng.permutation(n)])
